@@ -57,6 +57,12 @@ class TA(np.ndarray):
                 S.oob(self, idx, 0, e)
             raise
 
+    def __iter__(self):
+        # ndarray subclasses iterate through the sequence protocol, i.e. through
+        # __getitem__ until IndexError; that terminal IndexError is not an access
+        for i in range(self.shape[0]):
+            yield self[i]
+
     def __setitem__(self, idx, val):
         S = SIM
         if S.logging:
